@@ -8,7 +8,7 @@ import vbuild, vcheck
 
 H = os.path.join(vbuild.VERIF, "harness")
 DRIVERS = [os.path.join(H, f) for f in ("drv_arrayad.cpp", "drv_arrayad_s1.cpp", "drv_arrayad_s2.cpp",
-                                        "drv_arrayad_s3.cpp", "drv_arrayad_s4.cpp")]
+                                        "drv_arrayad_s3.cpp", "drv_arrayad_s4.cpp", "drv_arrayad_s5.cpp")]
 EXACT_BOUND = 1 << 50
 
 
@@ -294,6 +294,10 @@ STMT_KINDS = ["copy", "neg", "bin", "binsl", "binsr", "binal", "binar", "n1", "n
               "ixss", "ixtt", "ixcmp", "ixt2", "ixe2", "ixs2", "ixts2", "red", "rede", "dot", "rdim", "rdime", "outer", "spr",
               "spre", "elr", "elrc", "elw", "elc", "elcp", "elx", "fsin", "fsqrt", "fexpm", "fxcopy", "fxbin", "fxsrc", "fxff",
               "fxbcp", "fxbca", "fxcmp", "fxred"]
+
+
+# statement kinds of drv_arrayad_s5.cpp: recording sites without a C03 model (used by C09)
+EXTRA_KINDS = ["dvx", "elg", "fxg"]
 
 
 def is_stmt(op):
